@@ -16,7 +16,13 @@ def join_has_differently_named_keys(case, i, detail=None):
     return st[0] == "join" and any(p[0] != p[1] for p in st[2])
 
 
-PREDS = {f.__name__: f for f in (join_full_not_same_named, join_has_differently_named_keys)}
+def right_join_differently_named_keys(case, i, detail=None):
+    st = _step(case, i)
+    return st[0] == "join" and st[1] == "RIGHT" and any(p[0] != p[1] for p in st[2])
+
+
+PREDS = {f.__name__: f for f in (join_full_not_same_named, join_has_differently_named_keys,
+                                 right_join_differently_named_keys)}
 
 
 def classify(case, backend, verdict, findings, prop):
